@@ -5,9 +5,14 @@ VERIF = os.path.dirname(os.path.abspath(__file__))
 REPO = os.environ.get("VERIF_REPO", "/repo")
 COQ = os.path.join(VERIF, "coq")
 BUILD = os.path.join(VERIF, "build")
-BIN = os.path.join(BUILD, "bin")
-RUN = os.path.join(BUILD, "run")
-EVID = os.path.join(VERIF, "evidence")
+# VERIF_REPO=<copy of the repository> runs the checks against that copy (used to try seeded changes without touching
+# /repo): harness modules are then built through an alternative go.mod whose replace lines point at the copy, and
+# binaries, run files, replays and evidence go to separate directories.
+ALT = "" if REPO == "/repo" else "_" + hashlib.sha256(REPO.encode()).hexdigest()[:8]
+BIN = os.path.join(BUILD, "bin" + ALT)
+RUN = os.path.join(BUILD, "run" + ALT)
+EVID = os.path.join(VERIF, "evidence") if not ALT else os.path.join(BUILD, "evidence" + ALT)
+REPLAYS = os.path.join(VERIF, "replays") if not ALT else os.path.join(BUILD, "replays" + ALT)
 KNOWN = os.path.join(VERIF, "KNOWN_FINDINGS.txt")
 
 GOENV = dict(os.environ, GOFLAGS="-mod=mod", GOPROXY="off", GOSUMDB="off", GOTOOLCHAIN="local")
@@ -47,10 +52,16 @@ def sh(cmd, cwd=None, env=None, timeout=3600, input=None):
 def grep_gate():
     """No Admitted/admit/Axiom/Parameter/... anywhere in the development."""
     bad = []
+    # the development = the files of _CoqProject plus the property files (some are compiled outside the project);
+    # scratch files of work in progress that are not part of the build are not the development
+    project = set(l.strip() for l in open(os.path.join(COQ, "_CoqProject")) if l.strip().endswith(".v"))
     for root, _, files in os.walk(os.path.join(COQ, "theories")):
         for f in files:
             if f.endswith(".v"):
                 p = os.path.join(root, f)
+                rel = os.path.relpath(p, COQ)
+                if rel not in project and not rel.startswith("theories/Props/") and not rel.startswith("theories/Gen/"):
+                    continue
                 for i, line in enumerate(open(p, encoding="utf-8"), 1):
                     code = re.sub(r"\(\*.*?\*\)", "", line)
                     if FORBIDDEN.search(code):
@@ -252,7 +263,22 @@ def go_build(module, binary):
                     lines.update(open(pth).read().splitlines())
             with open(os.path.join(src, "go.sum"), "w") as f:
                 f.write("\n".join(sorted(lines)) + "\n")
-        rc, out, err = sh("go build -tags verif -o %s ." % os.path.join(BIN, binary), cwd=src, env=GOENV, timeout=1800)
+        modflag = ""
+        if ALT:
+            md = os.path.join(BUILD, "modfiles" + ALT)
+            os.makedirs(md, exist_ok=True)
+            alt_mod = os.path.join(md, module + ".mod")
+            with open(alt_mod, "w") as f:
+                f.write(open(os.path.join(src, "go.mod")).read().replace("=> /repo", "=> " + REPO))
+            gsum = os.path.join(src, "go.sum")
+            if os.path.exists(gsum):
+                with open(os.path.join(md, module + ".sum"), "w") as f:
+                    f.write(open(gsum).read())
+            modflag = "-modfile=%s " % alt_mod
+        env = dict(GOENV)
+        if ALT:
+            env["GOFLAGS"] = "-mod=mod"
+        rc, out, err = sh("go build %s-tags verif -o %s ." % (modflag, os.path.join(BIN, binary)), cwd=src, env=env, timeout=1800)
     return rc == 0, out + err
 
 
@@ -301,7 +327,7 @@ class Check:
         self.notes = []
         os.makedirs(os.path.join(RUN, pid), exist_ok=True)
         # replays of earlier runs of this property are stale
-        d = os.path.join(VERIF, "replays", pid)
+        d = os.path.join(REPLAYS, pid)
         if os.path.isdir(d):
             for f in os.listdir(d):
                 try:
@@ -321,7 +347,7 @@ class Check:
             self.cov["trusted_base"].append("Print Assumptions %s: %s" % (t, re.sub(r"\s+", " ", a)))
 
     def replay_path(self, name):
-        d = os.path.join(VERIF, "replays", self.pid)
+        d = os.path.join(REPLAYS, self.pid)
         os.makedirs(d, exist_ok=True)
         return os.path.join(d, name)
 
@@ -395,6 +421,20 @@ def proof_stage(chk, pids_props=None):
         for t, a in ob["assumptions"].items():
             if not a.startswith("Closed under the global context"):
                 chk.notes.append("%s depends on axioms: %s" % (t, a))
+        if allok and chk.tier == "thorough":
+            # independent re-check of the compiled property file and everything it depends on
+            cmd = "coqchk -silent -o -Q theories TSS TSS.Props.%s" % pid
+            t0 = time.time()
+            rc, out, err = sh("timeout 2700 " + cmd, cwd=COQ, timeout=2800)
+            txt = out + err
+            m = re.search(r"\* Axioms:(.*?)\n\s*\n\* Constants", txt, re.S)
+            axioms = re.sub(r"\s+", " ", m.group(1)).strip() if m else "?"
+            chk.cov["coqchk"] = dict(cmd=cmd, exit=rc, seconds=round(time.time() - t0, 1), axioms=axioms)
+            chk.cov["checker_cmd"] += " ; " + cmd
+            chk.cov["trusted_base"].append("coqchk -o (independent checker) on TSS.Props.%s: axioms %s" % (pid, axioms))
+            if rc != 0:
+                allok = False
+                chk.violation("coqchk_%s.txt" % pid, "coqchk rejects TSS.Props.%s\n\n%s" % (pid, txt[-4000:]), no_input=True)
     return allok
 
 
